@@ -23,6 +23,108 @@ def parseAll {α} (f : String → Option α) : List String → Option (List α)
 
 def showPairs (l : List (Nat × Nat)) : String := " ".intercalate (l.map fun p => s!"{p.1}+{p.2}")
 
+def parseErrno : String → Option Errno
+  | "ENOENT" => some .ENOENT | "EEXIST" => some .EEXIST | "ENOTDIR" => some .ENOTDIR | "EISDIR" => some .EISDIR
+  | "ELOOP" => some .ELOOP | "EINVAL" => some .EINVAL | "EIO" => some .EIO | "ENOSPC" => some .ENOSPC
+  | "EACCES" => some .EACCES | "EPERM" => some .EPERM | "EMFILE" => some .EMFILE | "EROFS" => some .EROFS
+  | "EXDEV" => some .EXDEV | "ENOSYS" => some .ENOSYS | "EOPNOTSUPP" => some .EOPNOTSUPP | "ETXTBSY" => some .ETXTBSY
+  | "ENXIO" => some .ENXIO | "EINTR" => some .EINTR | "ENOTEMPTY" => some .ENOTEMPTY | "EBADF" => some .EBADF
+  | "EFBIG" => some .EFBIG | "OTHER" => some .OTHER
+  | _ => none
+
+/-- `m<n>` = moved n bytes, `e<ERRNO>` = failed -/
+def parseAns (s : String) : Option IoAns :=
+  if s.startsWith "m" then (s.drop 1).toString.toNat?.map .moved
+  else if s.startsWith "e" then (parseErrno (s.drop 1).toString).map .err
+  else none
+
+/-- the kernel of a replay: the `a`-th call gets the `a`-th recorded answer; past the end of the record
+every call is answered in full (only reached when model and implementation already disagree) -/
+def scriptKern (l : List IoAns) : Kern :=
+  let arr := l.toArray
+  fun a _ _ req => (arr[a]?).getD (.moved req)
+
+def showSys : Sys → String
+  | .cfr => "cfr" | .pread => "pread" | .pwrite => "pwrite" | .read => "read" | .writeAll => "writeall"
+
+def showEv : Ev → String
+  | .call s off req _ => s!"{showSys s}@{off}+{req}"
+  | .copied n => s!"copied:{n}"
+
+def showErrno (e : Errno) : String := (reprStr e).replace "Xcp.Errno." ""
+
+def showStop : Stop → String
+  | .ok n => s!"ok:{n}"
+  | .fail (.os e) => s!"fail:{showErrno e}"
+  | .fail .ended => "fail:ended"
+  | .fail .shortWrite => "fail:shortwrite"
+  | .fail .unsupported => "fail:unsupported"
+  | .spin => "spin"
+
+def showRun (r : Run) : String :=
+  "ok " ++ " ".intercalate (r.evs.map showEv) ++ " | " ++ showStop r.stop
+
+def parseBool : String → Option Bool
+  | "1" => some true | "0" => some false | _ => none
+
+def parseSegs (s : String) : Option (List (Nat × Nat)) :=
+  if s = "-" then some [] else
+  (parseAll parseExtent (s.splitOn ",")).map (·.map fun e => (e.start, e.stop))
+
+def parseReflink : String → Option Reflink
+  | "auto" => some .auto | "always" => some .always | "never" => some .never | _ => none
+
+def parseClone (s : String) : Option CloneAns :=
+  if s = "ok" then some .ok else (parseErrno s).map .err
+
+def hexVal (c : Char) : Option Nat :=
+  if '0' ≤ c ∧ c ≤ '9' then some (c.toNat - 48)
+  else if 'a' ≤ c ∧ c ≤ 'f' then some (c.toNat - 87) else none
+
+def parseHexList : List Char → Option (List UInt8)
+  | [] => some []
+  | a :: b :: r => match hexVal a, hexVal b, parseHexList r with
+    | some x, some y, some t => some (UInt8.ofNat (x * 16 + y) :: t)
+    | _, _, _ => none
+  | _ => none
+
+/-- `-` is the empty string, otherwise lower-case hex -/
+def parseHex (s : String) : Option (List UInt8) := if s = "-" then some [] else parseHexList s.toList
+
+def hexDigit (n : Nat) : Char := if n < 10 then Char.ofNat (48 + n) else Char.ofNat (87 + n)
+def showHex (l : List UInt8) : String :=
+  if l.isEmpty then "-" else String.ofList (l.flatMap fun b => [hexDigit (b.toNat / 16), hexDigit (b.toNat % 16)])
+
+def parseMode : String → Option BackupMode
+  | "none" => some .none | "auto" => some .auto | "numbered" => some .numbered | _ => none
+
+def parseEntry (s : String) : Option (Name × List UInt8) :=
+  match s.splitOn ":" with
+  | [a, b] => match parseHex a, parseHex b with
+    | some x, some y => some (x, y)
+    | _, _ => none
+  | _ => none
+
+def parseOp (s : String) : Option (BackupMode × Name × List UInt8) :=
+  match s.splitOn ":" with
+  | [m, a, b] => match parseMode m, parseHex a, parseHex b with
+    | some m, some x, some y => some (m, x, y)
+    | _, _, _ => none
+  | _ => none
+
+def insertSorted (x : String) : List String → List String
+  | [] => [x]
+  | y :: r => if x ≤ y then x :: y :: r else y :: insertSorted x r
+def sortStrings (l : List String) : List String := l.foldr insertSorted []
+
+def showDir (d : Dir) : String :=
+  " ".intercalate (sortStrings (d.map fun kv => showHex kv.1 ++ ":" ++ showHex kv.2))
+
+def splitBar : List String → List String × List String
+  | [] => ([], [])
+  | "|" :: r => ([], r)
+  | x :: r => let (a, b) := splitBar r; (x :: a, b)
+
 def answer (line : String) : String :=
   match (line.trimAscii.toString.splitOn " ").filter (· ≠ "") with
   | "merge" :: rest =>
@@ -50,6 +152,58 @@ def answer (line : String) : String :=
       let L : Layout := ⟨n, es.map fun e => (e.start, e.stop)⟩
       "ok " ++ " ".intercalate ((segmentsOf L.oracle n (n + 1) 0).map fun p => s!"{p.1}-{p.2}")
     | _, _ => "bad-op"
+  -- one parblock block job: `blockjob <linux> <off> <bytes> | answers…`
+  | "blockjob" :: lx :: off :: bytes :: "|" :: anss =>
+    match parseBool lx, off.toNat?, bytes.toNat?, parseAll parseAns anss with
+    | some lx, some off, some bytes, some anss => showRun (blockJob (scriptKern anss) lx off bytes)
+    | _, _, _, _ => "bad-op"
+  -- parfile's copy of one file: `filecopy <linux> <len> <bsize> <sparse> <segs|-> | answers…`
+  | "filecopy" :: lx :: len :: bs :: sp :: segs :: "|" :: anss =>
+    match parseBool lx, len.toNat?, bs.toNat?, parseBool sp, parseSegs segs, parseAll parseAns anss with
+    | some lx, some len, some bs, some sp, some segs, some anss =>
+      if sp && lx then showRun (copySparse (scriptKern anss) (Layout.oracle ⟨len, segs⟩) bs len (len + 1) 0 0)
+      else showRun (copyBytes (scriptKern anss) lx bs (len + 1) 0 0 len 0)
+    | _, _, _, _, _, _ => "bad-op"
+  -- what parblock queues for one file: `pbjobs <len> <bsize> <sparse> <extents…|unsupported>`
+  | "pbjobs" :: len :: bs :: sp :: rest =>
+    match len.toNat?, bs.toNat?, parseBool sp with
+    | some len, some bs, some sp =>
+      if bs = 0 then "panic" else
+      match rest with
+      | ["unsupported"] => "ok " ++ showPairs (parblockJobs len bs sp none)
+      | _ => match parseAll parseExtent rest with
+        | some es => "ok " ++ showPairs (parblockJobs len bs sp (some es))
+        | none => "bad-op"
+    | _, _, _ => "bad-op"
+  -- reflink dispatch: `reflink <mode> <linux> <clone answer>` → issued? outcome
+  | ["reflink", mode, lx, ans] =>
+    match parseReflink mode, parseBool lx, parseClone ans with
+    | some m, some lx, some a =>
+      let r := tryReflink m lx a
+      s!"ok issued={r.1} " ++ (match r.2 with | .cloned => "cloned" | .copy => "copy" | .failed => "failed")
+    | _, _, _ => "bad-op"
+  -- `isbk <base> <cand>` (hex names)
+  | ["isbk", b, c] =>
+    match parseHex b, parseHex c with
+    | some b, some c => match isNumBackup b c with | some n => s!"ok some {n}" | none => "ok none"
+    | _, _ => "bad-op"
+  -- `bkhist <name:content>… | <mode:name:content>…` → final directory
+  | "bkhist" :: rest =>
+    let (ini, ops) := splitBar rest
+    match parseAll parseEntry ini, parseAll parseOp ops with
+    | some d, some h => "ok " ++ showDir (runHistory d h)
+    | _, _ => "bad-op"
+  -- `bksteps <mode> <name> <name:content>…` → the steps of one overwrite (kill-point enumeration)
+  | "bksteps" :: m :: nm :: ini =>
+    match parseMode m, parseHex nm, parseAll parseEntry ini with
+    | some m, some nm, some d =>
+      match copySteps d m nm [120] with
+      | some l => "ok " ++ " ".intercalate (l.map fun
+          | .rename a b => "rename:" ++ showHex a ++ ":" ++ showHex b
+          | .createTrunc n => "create:" ++ showHex n
+          | .fill n _ => "fill:" ++ showHex n)
+      | none => "refused"
+    | _, _, _ => "bad-op"
   | ["sparse", blk, sz] =>
     match blk.toNat?, sz.toNat? with
     | some b, some s => s!"ok {probablySparse b s}"
